@@ -4,6 +4,7 @@ import InvProxy.Model.Bridge
 import InvProxy.Model.Route
 import InvProxy.Model.Seeker
 import InvProxy.Model.Dedup
+import InvProxy.Model.Inject
 open InvProxy Driver
 
 /-- suite `backoff`: `target <n>` ↦ un-jittered target in ns;  `loop <pattern of 0/1>` ↦ retry counts slept with -/
@@ -80,11 +81,60 @@ def dedupStep (st : Nat × List String × List String) : List String → (Nat ×
     (st, " ".intercalate (sp.toArray.qsort (· < ·)).toList)
   | _ => (st, "bad-op")
 
+def pageMarker : Bytes := "\x00PAGE-MARKER-7f3a\x00".toUTF8.toList
+
+def parseHop (s : String) : Option Inject.Op :=
+  match s.splitOn ":" with
+  | ["S", k, v] => some (.setHeader (unhexD k) (unhexD v))
+  | ["A", k, v] => some (.addHeader (unhexD k) (unhexD v))
+  | ["H", c] => some (.writeHeader (Int.ofNat (natD c)))
+  | ["W", d] => some (.write (unhexD d))
+  | _ => none
+
+def showEv : Inject.Ev → String
+  | .head c h => s!"head:{c}:{canonHeader (h.filter (fun p => p.1 != "Date".toUTF8.toList))}"
+  | .body b => if b == pageMarker then "body:PAGE" else "body:" ++ hexOf b
+
+/-- suite `banner`: `banner <method> <accept|-> <framed> <ops>` ↦ events at the outer writer -/
+def bannerStep (_ : Unit) : List String → Unit × String
+  | ["banner", m, acc, fr, ops] =>
+    let hdr : Hdr := if acc == "-" then [] else [(Go.canon "Accept".toUTF8.toList, [unhexD acc])]
+    let r : Req := { Method := unhexD m, Header := hdr, Host := [], URL := ⟨[]⟩ }
+    let cfg : Inject.Cfg := { alreadyFramed := fr == "1", page := pageMarker, date := [] }
+    let hops := if ops == "-" then [] else (ops.splitOn ";").filterMap parseHop
+    ((), ";".intercalate ((Inject.bannered cfg r [] hops).map showEv))
+  | _ => ((), "bad-op")
+
+/-- suite `splice`: `code <hex>` | `splice <ct|-> <first> <rest>` -/
+def spliceStep (code : Bytes) : List String → Bytes × String
+  | ["code", c] => (unhexD c, "ok")
+  | ["splice", ct, f, r] =>
+    let (out, dropped) := Inject.shimBody code (if ct == "-" then [] else unhexD ct) (unhexD f) (unhexD r)
+    (code, s!"{hexOf out} cl={if dropped then "false" else "true"}")
+  | _ => (code, "bad-op")
+
+/-- `hexkey=hexv,hexv;…` (vh.CanonHeader) back into a header map -/
+def parseCanonHeader (s : String) : Hdr :=
+  if s == "{}" then [] else
+  (s.splitOn ";").map fun kv =>
+    match kv.splitOn "=" with
+    | [k, vs] => (unhexD k, (vs.splitOn ",").map unhexD)
+    | _ => ([], [])
+
+/-- suite `identity`: `fwd <fu> <sc> <user> <header>` ↦ header after the regenerated edits of forwardRequest -/
+def identityStep (_ : Unit) : List String → Unit × String
+  | ["fwd", fu, sc, u, h] =>
+    ((), canonHeader (Gen.agent_forwardRequestHeader (fu == "1") (sc == "1") (unhexD u) (parseCanonHeader h)))
+  | _ => ((), "bad-op")
+
 def main (args : List String) : IO UInt32 := do
   let stdin ← IO.getStdin
   let stdout ← IO.getStdout
   match args with
   | ["backoff"] => loop stdin stdout backoffStep (); return 0
+  | ["identity"] => loop stdin stdout identityStep (); return 0
+  | ["banner"] => loop stdin stdout bannerStep (); return 0
+  | ["splice"] => loop stdin stdout spliceStep []; return 0
   | ["dedup"] => loop stdin stdout dedupStep (0, [], []); return 0
   | ["route"] => loop stdin stdout routeStep (); return 0
   | ["seeker"] => loop stdin stdout seekerStep (Seeker.init 0); return 0
